@@ -707,6 +707,121 @@ def opSCI (args obs : List String) : P String := do
                         showList toString (vs.map (storeScaled g .trunc .saturate sc bi))] obs)
   | _ => throw "SCI: arity"
 
+def showShape (dims : List Nat) : String :=
+  match dims with
+  | [] => "()"
+  | [a] => s!"({a},)"
+  | l => "(" ++ ",".intercalate (l.map toString) ++ ")"
+
+/-- apply `g` along an axis of a 2-D array given as rows: `axis 1` = within rows, `axis 0` = within columns. -/
+def alongAxis (g : List Int → List Int) (axis : Nat) (rows : List (List Int)) : List (List Int) :=
+  if axis = 1 then rows.map g else transposeL ((transposeL rows).map g)
+
+/-- `RD <fn> <route> <axis=n|0|1> <r> <c> <fx> <o> [codes] | s n f shape [codes] ov un`
+`r = 0`: 1-D array of length `c`. -/
+def opRD (args obs : List String) : P String := do
+  match args with
+  | [fn, _route, axis, r, c, sx, nx, fx, o, cs] =>
+    let r ← pNat r
+    let c ← pNat c
+    let x ← pFmt sx nx fx
+    let o ← pOverflow o
+    let cs ← pList pInt cs
+    let size := cs.length
+    let twoD := r != 0
+    let rows : List (List Int) := if twoD then toRows c cs else [cs]
+    let ax : Option Nat := if axis == "n" then none else if axis == "0" then some 0 else some 1
+    -- effective axis on rows: a 1-D array is the single row, axis 0 → within that row
+    let axr : Option Nat := match ax with
+      | none => none
+      | some a => if twoD then some a else some 1
+    let lanes : List (List Int) := match axr with
+      | none => [rows.flatten]
+      | some 1 => rows
+      | some _ => transposeL rows
+    let outShape1 : List Nat := match axr with
+      | none => []
+      | some 1 => if twoD then [r] else []
+      | some _ => [c]
+    let res : P (Fmt × List Nat × List Int) := match fn with
+      | "sum" => pure (sumFmt x size, outShape1, lanes.map sumL)
+      | "max" => pure (x, outShape1, lanes.map maxL)
+      | "min" => pure (x, outShape1, lanes.map minL)
+      | "prod" =>
+        let num := match axr with | none => size | some 1 => (if twoD then c else size) | some _ => r
+        pure (prodFmt x num, outShape1, lanes.map prodL)
+      | "cumsum" =>
+        match axr with
+        | none => pure (sumFmt x size, [size], cumL (· + ·) rows.flatten)
+        | some a => pure (sumFmt x size, if twoD then [r, c] else [size], (alongAxis (cumL (· + ·)) a rows).flatten)
+      | "cumprod" =>
+        match axr with
+        | none => pure (prodFmt x size, [size], cumprodCodes x size rows.flatten)
+        | some a => pure (prodFmt x size, if twoD then [r, c] else [size], (alongAxis (cumprodCodes x size) a rows).flatten)
+      | "sort" => pure (x, if twoD then [r, c] else [size], (rows.map sortL).flatten)
+      | "transpose" => pure (x, if twoD then [c, r] else [size], if twoD then (transposeL rows).flatten else cs)
+      | "diagonal" => pure (x, [(diagL rows).length], diagL rows)
+      | "trace" => pure (sumFmt x (diagL rows).length, [], [sumL (diagL rows)])
+      | _ => throw s!"RD: fn {fn}"
+    let (g, shape, ks) ← res
+    let out := ks.map (ovf o g)
+    pure (functional [showSigned g.signed, toString g.nword, toString g.nfrac, showShape shape, showList toString out,
+                      showBool (ks.any (fun k => decide (g.hi < k))), showBool (ks.any (fun k => decide (k < g.lo)))] obs)
+  | _ => throw "RD: arity"
+
+/-- `RDD <route> <r1> <c1> <fx> <r2> <c2> <fy> <o> [a] [b] | s n f shape [codes] ov un` — dot product
+(`r = 0`: 1-D operand of length `c`). -/
+def opRDD (args obs : List String) : P String := do
+  match args with
+  | [_route, r1, c1, sx, nx, fx, r2, c2, sy, ny, fy, o, as, bs] =>
+    let r1 ← pNat r1
+    let c1 ← pNat c1
+    let r2 ← pNat r2
+    let c2 ← pNat c2
+    let x ← pFmt sx nx fx
+    let y ← pFmt sy ny fy
+    let o ← pOverflow o
+    let as ← pList pInt as
+    let bs ← pList pInt bs
+    let g := dotFmt x y c1
+    let (shape, ks) : List Nat × List Int :=
+      if r1 = 0 ∧ r2 = 0 then ([], [dotL as bs])
+      else if r2 = 0 then ([r1], (toRows c1 as).map (fun row => dotL row bs))
+      else if r1 = 0 then ([c2], (transposeL (toRows c2 bs)).map (fun col => dotL as col))
+      else ([r1, c2], (matmulL (toRows c1 as) (toRows c2 bs)).flatten)
+    let out := ks.map (ovf o g)
+    pure (functional [showSigned g.signed, toString g.nword, toString g.nfrac, showShape shape, showList toString out,
+                      showBool (ks.any (fun k => decide (g.hi < k))), showBool (ks.any (fun k => decide (k < g.lo)))] obs)
+  | _ => throw "RDD: arity"
+
+/-- `RDC <route> <fx> <amin|-> <amax|-> [codes] | s n f [codes]` — clip to bounds given as codes of `fx`. -/
+def opRDC (args obs : List String) : P String := do
+  match args with
+  | [_route, sx, nx, fx, lo, hi, cs] =>
+    let x ← pFmt sx nx fx
+    let lo ← pOptInt lo
+    let hi ← pOptInt hi
+    let cs ← pList pInt cs
+    pure (functional [showSigned x.signed, toString x.nword, toString x.nfrac, showList toString (clipL lo hi cs)] obs)
+  | _ => throw "RDC: arity"
+
+/-- `RDM <r1> <c1> <fx> <r2> <c2> <fy> [a] [b] | shape [values]` — `np.matmul` (not dispatched to a fixed-point
+kernel: computed on values and wrapped); only the values are demanded. -/
+def opRDM (args obs : List String) : P String := do
+  match args with
+  | [r1, c1, sx, nx, fx, _r2, c2, sy, ny, fy, as, bs] =>
+    let r1 ← pNat r1
+    let c1 ← pNat c1
+    let c2 ← pNat c2
+    let x ← pFmt sx nx fx
+    let y ← pFmt sy ny fy
+    let as ← pList pInt as
+    let bs ← pList pInt bs
+    let ks := (matmulL (toRows c1 as) (toRows c2 bs)).flatten
+    let vals := ks.map (fun (k : Int) => scale (k : Rat) (-(x.nfrac + y.nfrac)))
+    pure (functional [showShape [r1, c2], showList showRat vals] obs)
+  | _ => throw "RDM: arity"
+
 /-- `UN <op=neg|pos|abs> <fx> [codes] | s n f [codes]` — unary operators build a default-config object. -/
 def opUN (args obs : List String) : P String := do
   match args with
@@ -741,6 +856,10 @@ def dispatch (op : String) (args obs : List String) : P String :=
   | "NC" => opNC args obs
   | "DR" => opDR args obs
   | "SB" => opSB args obs
+  | "RD" => opRD args obs
+  | "RDD" => opRDD args obs
+  | "RDC" => opRDC args obs
+  | "RDM" => opRDM args obs
   | "SC" => opSC args obs
   | "SCI" => opSCI args obs
   | "INF" => opINF args obs
